@@ -29,6 +29,10 @@ THEOREMS = [
     "Ural.Props.C09.tok_lower",
     "Ural.Props.C09.tok_punycode_unicode",
     "Ural.Props.C09.punyLaws_demo",
+    "Ural.Props.C09.match_url_via_host",
+    "Ural.Props.C09.match_url_of_parts",
+    "Ural.Props.C09.match_url_string_spec",
+    "Ural.Props.C09.match_url_invariance",
 ]
 TABLE_OBLIGATIONS = []
 RULE = (
@@ -42,7 +46,9 @@ RULE = (
     "protocol-relative, userinfo). Random part: sequences of 5..40 adds over realistic labels with upper "
     "case, padding white space, punycode and IDN spellings, invalid xn-- labels; queries derived "
     "from the adds (self, parents, children, siblings, look-alikes, respelled labels) plus "
-    "host-less URLs. Non-trivial = the sequence contains a pruning add (a domain added after one "
+    "host-less URLs, plus 'torture' query strings (brackets, white space in front, newline in the scheme, "
+    "svn+ssh://, letters://, 64/65-letter schemes, several @, non-digit ports ...) that only the model (its own "
+    "parser) and the implementation see, never the oracle. Query URLs travel to the model as strings. Non-trivial = the sequence contains a pruning add (a domain added after one "
     "of its subdomains), an ignored add (a subdomain added after its domain) or a duplicate add; "
     "distinct = distinct add sequence."
 )
@@ -53,7 +59,7 @@ EXHAUSTIVE = {
 TRUSTED = [
     "Lean 4 kernel; axioms of every listed theorem audited to be within {propext, Classical.choice, Quot.sound}",
     "hand-written Lean models UralModel/Model/TrieDict.lean (set_and_prune_if_shorter, longest_matching_prefix_value, prefixes, __len__) and UralModel/Model/HostnameTrieSet.lean (tokenize_hostname, join_hostname, add, match, __len__, __iter__), tied to the code by differential execution of whole histories (this run)",
-    "safe_urlsplit(url).hostname (PROTOCOL_RE + CPython urllib.parse.urlsplit) is NOT modelled: the model's match receives the hostname computed by the real parser; the oracle obtains the hostname independently with urllib.parse.urlsplit",
+    "safe_urlsplit(url).hostname (PROTOCOL_RE + CPython urllib.parse.urlsplit + SplitResult.hostname) is the shared Lean parser model (Py/UrlSplit.lean, Py/UrlAccessors.lean, Model/TldUrl.lean): the model's match receives the URL STRING and parses it itself (HostnameTrieSet.matchUrl), the hostnames it extracts are compared with the real parser's on every case; the parser model is compared with CPython, not proved equal to it; strings outside its stated domain (a non-ASCII character that str.lower changes, the NFKC check) fall back to the hostname computed by the real parser; the oracle obtains the hostname independently with urllib.parse.urlsplit",
     "attempt_to_decode_idna (CPython idna codec) is an abstract parameter `puny` of the model; the driver uses the table of the real codec's answers on the labels of the case; the one law the theorems assume (PunyLaws.decoded: the result is the input or no longer starts with xn--) is evaluated by the model on that table on every case and must be true",
     "is_special_host is an abstract parameter `special` (table from the real function); the property excludes special hosts (IP literals, localhost), generators never produce them",
     "str.strip / str.lower are modelled exactly on ASCII and on the 29 isspace code points; non-ASCII letters in the generators are lower-case already (lower() is the identity on them)",
@@ -103,9 +109,31 @@ def _urls(tag):
     raise ValueError(tag)
 
 
-def urls_of(case):
+def urls_of(case, torture=True):
+    """the query URLs of a case; with `torture` also the strings of `tq`, which are compared between the
+    model (its own parser) and the implementation only — the oracle never sees them (it would have to say
+    what the hostname of `http://[a.b]/` or of ` http://a.b/` is)"""
     q = case["q"]
-    return _urls(q) if isinstance(q, str) else q
+    q = _urls(q) if isinstance(q, str) else q
+    if torture and case.get("tq"):
+        return list(q) + list(case["tq"])
+    return q
+
+
+TQ_SHAPES = [
+    "http://[%s]/", "http://%s]/", "http://[%s/", " http://%s/", "ht\ntp://%s/", "svn+ssh://%s/", "%s://x.fr/p", "http://%s\t/p",
+    "http://u@%s:80@/", "//%s//x", "a" * 65 + "://%s", "a" * 64 + "://%s", "http:%s", "http:/%s", "http://%s%%zone/",
+    "HTTP://[::1]:80@%s/", "http://[::1]/%s", "http://1.2.3.4/%s", "localhost/%s", "http://[v1.%s]/", "\t%s", "@%s", "%s@",
+    "http://u:p@w@%s:99999/x", "http://%s:8a/", "%s:", ":%s", "http://%s.:80/", "x://%s", "1http://%s", "http://[::1]%s/",
+]
+
+
+def _torture(rng, hosts):
+    out = []
+    for h in hosts:
+        for sh in rng.sample(TQ_SHAPES, 3):
+            out.append(sh % h)
+    return out
 
 
 # ---------------------------------------------------------------------------------------
@@ -205,7 +233,8 @@ def random_case(rng):
             if c and not _undefined(c):
                 qs.append(_embed(rng, _spell(rng, c, pad=False)))
     qs.extend(["", "/just/a/path", "http:///x", "?q=1"])
-    return {"adds": adds, "q": qs}
+    tq = _torture(rng, [_spell(rng, labels, pad=False) for labels in rng.sample(pool, min(len(pool), 4))])
+    return {"adds": adds, "q": qs, "tq": tq}
 
 
 CORPUS = [
@@ -234,6 +263,10 @@ CORPUS = [
 def cases(rng, tier):
     for c in CORPUS:
         yield c
+    # every torture shape once, on two fixed histories (model's own parser vs the implementation)
+    for adds in (["lemonde.fr", "a.b", "xn--tlrama-bvab.fr"], ["b.a", "a", "co.uk"]):
+        yield {"adds": adds, "q": ["http://lemonde.fr", "a.b/p"],
+               "tq": [sh % h for h in ("www.lemonde.fr", "A.B", "a", "télérama.fr") for sh in TQ_SHAPES]}
     yield {"adds": [], "q": "ab8"}
     for n in (1, 2, 3):
         for seq in itertools.product(H3, repeat=n):
@@ -258,6 +291,53 @@ def _real_hostnames(urls):
             out.append(safe_urlsplit(u).hostname)
         except Exception:  # noqa
             out.append(None)
+    return out
+
+
+def _ascii_lower(s):
+    return "".join(chr(ord(c) + 32) if "A" <= c <= "Z" else c for c in s)
+
+
+def outside_model(url):
+    """None, or why this URL string is outside the stated domain of the Lean parser model (header of
+    Py/UrlAccessors.lean): decided from what the REAL parser says, never from the model.  Such a URL is
+    still matched by the model, but on the hostname the real parser extracted."""
+    from ural.utils import safe_urlsplit
+
+    try:
+        r = safe_urlsplit(url)
+    except ValueError as e:
+        return "nfkc-check" if "NFKC" in str(e) else None
+    nl = r.netloc
+    if not nl.isascii():
+        hi = nl.rpartition("@")[2]
+        if hi.lower() != _ascii_lower(hi):
+            return "non-ascii-case-in-host"
+    if "[" in nl and "]" in nl:
+        b = nl.partition("[")[2].partition("]")[0]
+        if not b.startswith("v") and "." in b.partition("%")[0]:
+            return "ipv4-tail-in-ipv6"
+    return None
+
+
+def _model_urls(urls):
+    """the URL strings the model parses itself (None: falls back to the real parser's hostname)"""
+    return [u if outside_model(u) is None else None for u in urls]
+
+
+def _hosts_out(urls, murls):
+    """what the real parser extracts from the strings the model parses itself"""
+    from ural.utils import safe_urlsplit
+
+    out = []
+    for u, m in zip(urls, murls):
+        if m is None:
+            out.append(None)
+            continue
+        try:
+            out.append(safe_urlsplit(u).hostname)
+        except Exception as e:  # noqa
+            out.append(lib.pyerr(e))
     return out
 
 
@@ -291,12 +371,13 @@ def ops(case):
     urls = urls_of(case)
     key = case["q"] if isinstance(case["q"], str) else None
     if key is not None and key in _OPS_CACHE:
-        qhosts, qp, qs = _OPS_CACHE[key]
+        qhosts, qp, qs, murls = _OPS_CACHE[key]
     else:
         qhosts = _real_hostnames(urls)
         qp, qs = _tables(qhosts)
+        murls = _model_urls(urls)
         if key is not None:
-            _OPS_CACHE[key] = (qhosts, qp, qs)
+            _OPS_CACHE[key] = (qhosts, qp, qs, murls)
     ap, asp = _tables(case["adds"])
     puny = {k: v for k, v in qp}
     puny.update({k: v for k, v in ap})
@@ -305,10 +386,14 @@ def ops(case):
             "f": "hts",
             "adds": case["adds"],
             "queries": qhosts,
+            "urls": murls,
             "puny": [[k, v] for k, v in sorted(puny.items())],
             "special": sorted(set(qs) | set(asp)),
         }
     ]
+
+
+_HOSTS_CACHE = {}
 
 
 def _observe(t, urls):
@@ -344,7 +429,14 @@ def impl(case):
             states.append(lib.pyerr(e))
             continue
         states.append(_observe(t, urls))
-    return [{"laws": True, "states": states}]
+    key = case["q"] if isinstance(case["q"], str) else None
+    if key is not None and key in _HOSTS_CACHE:
+        hosts = _HOSTS_CACHE[key]
+    else:
+        hosts = _hosts_out(urls, _model_urls(urls))
+        if key is not None:
+            _HOSTS_CACHE[key] = hosts
+    return [{"laws": True, "states": states, "hosts": hosts}]
 
 
 def canon(op, out):
@@ -356,7 +448,10 @@ def canon(op, out):
             s = dict(s)
             s["iter"] = sorted(s["iter"])
         sts.append(s)
-    return {"laws": out.get("laws"), "states": sts}
+    res = {"laws": out.get("laws"), "states": sts}
+    if "hosts" in out:
+        res["hosts"] = out["hosts"]
+    return res
 
 
 # ---------------------------------------------------------------------------------------
@@ -396,7 +491,7 @@ def _is_prefix(a, q):
 def oracle(case):
     from ural import HostnameTrieSet
 
-    urls = urls_of(case)
+    urls = urls_of(case, torture=False)
     try:
         qkeys = []
         for u in urls:
